@@ -182,6 +182,13 @@ func evalCond(v ssa.Value, b *ssa.BasicBlock, pi int, pred *ssa.BasicBlock, dept
 		}
 	}
 	switch x := v.(type) {
+	case *ssa.Const:
+		if x.Value != nil && x.Value.Kind() == constant.Bool {
+			if constant.BoolVal(x.Value) {
+				return triTrue
+			}
+			return triFalse
+		}
 	case *ssa.UnOp:
 		if x.Op == token.NOT {
 			return evalCond(x.X, b, pi, pred, depth+1).not()
@@ -736,4 +743,77 @@ func BlockLocalLoad(v ssa.Value) ssa.Value {
 		v = lv
 	}
 	return v
+}
+
+// SimplifyPhis replaces, in every given function, each phi that takes one
+// single value on all its feasible incoming edges (see LiveEdge) by that value
+// — the edges it could differ on are never taken. After helper expansion this
+// is what is left of `x, err := h(); if err != nil { return }`: the variable
+// assigned on the error arms merges at the join, but those arms have returned.
+// The SSA form is edited in place (operands and referrer lists); the phi stays
+// in its block, unused. Returns the number of phis replaced.
+func SimplifyPhis(fns []*ssa.Function) int {
+	total := 0
+	for _, fn := range fns {
+		for round := 0; round < 8; round++ {
+			n := 0
+			for _, b := range fn.Blocks {
+				for _, in := range b.Instrs {
+					ph, ok := in.(*ssa.Phi)
+					if !ok {
+						break
+					}
+					refs := ph.Referrers()
+					if refs == nil || len(*refs) == 0 {
+						continue
+					}
+					var val ssa.Value
+					single := true
+					liveEdges := 0
+					for i, e := range ph.Edges {
+						if i >= len(b.Preds) || !LiveEdge(b.Preds[i], b) {
+							continue
+						}
+						liveEdges++
+						if e == ssa.Value(ph) {
+							continue
+						}
+						if val == nil {
+							val = e
+						} else if val != e {
+							single = false
+						}
+					}
+					if !single || val == nil || liveEdges == len(ph.Edges) && false {
+						continue
+					}
+					// all live edges agree; if every edge is live and they agree go/ssa would have removed
+					// the phi already, so this one exists because of a dead edge
+					for _, u := range *refs {
+						for _, op := range u.Operands(nil) {
+							if *op == ssa.Value(ph) {
+								*op = val
+							}
+						}
+						if vr := val.Referrers(); vr != nil {
+							*vr = append(*vr, u)
+						}
+					}
+					*refs = nil
+					n++
+				}
+			}
+			total += n
+			if n == 0 {
+				break
+			}
+		}
+	}
+	if total > 0 {
+		// decisions cached per block stay valid (the replaced values are equal on every feasible path)
+		// but may be sharper now
+		condCache = map[condKey]tri{}
+		liveCache = map[*ssa.Function][]bool{}
+	}
+	return total
 }
